@@ -67,7 +67,7 @@ structure DS where
   exclude : List String := []            -- translated functions to be treated as extern
 
 def rhoOf (d : DS) : Rho Float :=
-  { i := fun _ => 0, n := fun k => d.nums.getD k 0.0, b := fun _ => false }
+  { i := fun _ => 0, n := fun k => if k = 1000000 then (1.0 / 0.0 : Float) else d.nums.getD k 0.0, b := fun _ => false }
 
 mutual
 /-- parse one value; floats become fresh num atoms -/
